@@ -1,6 +1,9 @@
 # h_iter.c contributions to properties aggregated from several harnesses.
 # C12: a refused operation in the middle of an iteration (phase=midop) - every iterable kind, both directions, every position:
 # the documented exception is raised and the iteration in progress (held item, remaining items, count) and len are left exactly as they were.
+# part=shrunk: the same for views (Slice, Slice of Slice, Zip / Map / Filter over a Slice) whose underlying container was shortened or lengthened after the view was built,
+# so that an index inside the Slice's own window is refused by the container: get(target, i) for every target, position and index, refused or accepted, leaves the walk as it is without the call
+# (differential: compared with the undisturbed walk of the same view over the same container).
 def I(name, variant, *args, **kw):
     d = dict(name=name, harness='h_iter.c', variant=variant, args=list(args))
     d.update(kw)
@@ -8,7 +11,10 @@ def I(name, variant, *args, **kw):
 
 PARTS = {
   'C12': {
-    'quick': [I('iter-midop', 'base', 'phase=midop', 'rangeneg=1', 'zipget=1', 'sliceget=1'), I('iter-midop-asan', 'asan', 'phase=midop', 'rangeneg=1', 'zipget=1', 'sliceget=1')],
-    'thorough': [I('iter-midop', 'base', 'phase=midop', 'rangeneg=1', 'zipget=1', 'sliceget=1'), I('iter-midop-asan', 'asan', 'phase=midop', 'rangeneg=1', 'zipget=1', 'sliceget=1')],
+    'quick': [I('iter-midop', 'base', 'phase=midop', 'part=classic', 'rangeneg=1', 'zipget=1', 'sliceget=1'), I('iter-midop-asan', 'asan', 'phase=midop', 'part=classic', 'rangeneg=1', 'zipget=1', 'sliceget=1'),
+              I('iter-midop-shrunk', 'base', 'phase=midop', 'part=shrunk'), I('iter-midop-shrunk-asan', 'asan', 'phase=midop', 'part=shrunk', 'sparams=2')],
+    'thorough': [I('iter-midop', 'base', 'phase=midop', 'part=classic', 'rangeneg=1', 'zipget=1', 'sliceget=1'), I('iter-midop-asan', 'asan', 'phase=midop', 'part=classic', 'rangeneg=1', 'zipget=1', 'sliceget=1')]
+              + [I('iter-midop-shrunk-%s' % k, 'base', 'phase=midop', 'part=shrunk', 'kinds=' + k, 'smin=2', 'smax=7', 'sparams=16', 'sidx=2') for k in ('array', 'list', 'htuple', 'table', 'tree')]
+              + [I('iter-midop-shrunk-asan-%s' % k, 'asan', 'phase=midop', 'part=shrunk', 'kinds=' + k, 'smin=2', 'smax=6', 'sparams=16', 'sidx=2') for k in ('array', 'list', 'htuple', 'table', 'tree')],
   },
 }
